@@ -44,7 +44,7 @@ QUICK = [
     # regression shapes (harness/shapes.txt): graphs on which a known defect or a seeded change needed
     # something specific; every schedule, every single failure, every abort point, chains of three
     ("shapes", "explore", ["shapes", "levels=f1a/dbf1a/db", "steps=0", "maxstates=3000"],
-     TRACEP - {"C14", "C15", "C16", "C20"}, False, None),
+     TRACEP - {"C15", "C16", "C20"}, False, None),
     ("shapesst", "explore", ["shapes", "cmp=both", "levels=f1/dbf1/-", "paths=4", "steps=0"], {"C15", "C16"}, False, None),
     ("shapesfl", "explore", ["shapes", "cmp=both", "levels=-/bdk/-", "paths=4", "steps=0"], {"C16"}, False, None),
     ("shapesdc", "explore", ["shapes", "levels=p8/dbp8", "paths=4", "steps=0"], {"C14"}, False, None),
@@ -77,7 +77,7 @@ THOROUGH = [
     ("names4", "explore", ["exh", "n=4", "conv=names", "multi=1", "filter=eph2", "stride=9", "levels=-/dbrf1/rx", "paths=2", "steps=0"],
      {"C01", "C03", "C04", "C09", "C18"}, False, None),
     ("shapes", "explore", ["shapes", "levels=f1a/dbf1a/dbf1", "steps=0", "maxstates=3000"],
-     TRACEP - {"C14", "C15", "C16", "C20"}, False, None),
+     TRACEP - {"C15", "C16", "C20"}, False, None),
     # two things changed at once between evaluations (pairs of edits), node / edge edits
     ("shapes2", "explore", ["shapes", "levels=f1/dbnetf1/db", "paths=4", "steps=0"],
      TRACEP - {"C14", "C15", "C16", "C20"}, False, None),
